@@ -71,6 +71,8 @@ class DBusProperty:
         instance._dbusProperties[self.key] = value
 
         if self.iprop.emits == 'true':
+            if self.iprop.sig in marshal.variantClassMap:
+                value = marshal.variantClassMap[self.iprop.sig](value)
             instance.emitSignal(
                 'PropertiesChanged',
                 self.interface,
